@@ -18,6 +18,8 @@ def build_history(rng, oid, kind, nops, with_stats=True, op_filter=None, freq=No
         nw = int(rng.integers(2, 9))
         rows_per_az = [hvgen.gen_curve_set(rng, freq, nw) for _ in range(naz)]
         azs = sorted(float(a) for a in rng.choice(np.arange(0, 180, 5), naz, replace=False))
+        if naz > 1 and rng.random() < 0.3:      # an azimuthal object assembled by hand: the azimuths need not be ascending
+            azs = [azs[j] for j in rng.permutation(naz)]
         m = Mirror.az(oid, freq, rows_per_az, azs)
     steps = []
 
